@@ -38,6 +38,8 @@ package cpumem
 //@ func (Plugin) doAllocByMemory
 //@   requires okInfo(resourceInfo) && req != nil && req.MemRequest >= 0 && deployCount >= 0 && deployCount <= 4294967296
 //@   ensures[C07.alloc-mem]  (err == nil) <==> acceptMem(req.CPURequest, card(resourceInfo.Capacity.CPUMap), req.MemRequest, resourceInfo.Capacity.Memory - resourceInfo.Usage.Memory, deployCount)
+//@   # the accepted instances fit into the free memory together (C04)
+//@   ensures[C04.alloc-mem-fits] err == nil && req.MemRequest > 0 ==> deployCount * req.MemRequest <= resourceInfo.Capacity.Memory - resourceInfo.Usage.Memory
 //@   ensures[C07.alloc-mem-count] err == nil ==> len(result0) == deployCount && len(result1) == deployCount
 //@                              && forall k :: 0 <= k && k < deployCount ==> result1[k] != nil && result1[k].MemoryRequest == req.MemRequest && result1[k].CPURequest == req.CPURequest && card(result1[k].CPUMap) == 0
 //@   loop 1:
@@ -55,9 +57,16 @@ package cpumem
 //@                              && arg(schedule.GetCPUPlans, 2) == p.config.Scheduler.ShareBase && arg(schedule.GetCPUPlans, 3) == p.config.Scheduler.MaxShare
 //@                              && arg(schedule.GetCPUPlans, 4) == req
 //@   ensures[C07.alloc-cpu-count] err == nil ==> len(result0) == deployCount && len(result1) == deployCount
+//@   # the CPU amount and cores recorded for each workload are the request and the plan it was given (C05)
+//@   ensures[C05.recorded] err == nil ==> let plans == res(schedule.GetCPUPlans) :: forall k :: 0 <= k && k < deployCount ==>
+//@                              result1[k] != nil && result0[k] != nil && result1[k].CPURequest == req.CPURequest && result1[k].CPUMap == plans[k].CPUMap
+//@                              && result0[k].CPUMap == plans[k].CPUMap && result1[k].NUMANode == plans[k].NUMANode && result1[k].MemoryRequest == req.MemRequest
 //@   loop 1:
 //@     modifies nothing
 //@     invariant len(enginesParams) == rangeindex + 1 && len(workloadsResource) == rangeindex + 1
+//@     invariant[C05] let plans == res(schedule.GetCPUPlans) :: forall k :: 0 <= k && k <= rangeindex ==>
+//@                              workloadsResource[k] != nil && enginesParams[k] != nil && workloadsResource[k].CPURequest == req.CPURequest && workloadsResource[k].CPUMap == plans[k].CPUMap
+//@                              && enginesParams[k].CPUMap == plans[k].CPUMap && workloadsResource[k].NUMANode == plans[k].NUMANode && workloadsResource[k].MemoryRequest == req.MemRequest
 //@     invariant (arr(workloadsResource) == 0 || (fresh(workloadsResource) && allocated(workloadsResource))) && (arr(enginesParams) == 0 || (fresh(enginesParams) && allocated(enginesParams)))
 
 //@ # reading the stored node records (etcd + JSON): assumed to yield records that Validate accepted
